@@ -60,6 +60,14 @@ impl Ctl {
                 1 => io::Error::new(io::ErrorKind::Interrupted, "injected fault (interrupted)"),
                 2 => io::Error::new(io::ErrorKind::UnexpectedEof, "injected fault (unexpected eof)"),
                 3 => io::Error::new(io::ErrorKind::UnexpectedEof, "injected fault (zero-length read)"),
+                // write-side faults come in several kinds (by position): nothing in the library may treat one of
+                // them as "nothing to report" or "nothing to retry"
+                _ if !is_read_side => match k % 4 {
+                    1 => io::Error::new(io::ErrorKind::NotFound, "injected fault (not found)"),
+                    2 => io::Error::new(io::ErrorKind::PermissionDenied, "injected fault (permission denied)"),
+                    3 => io::Error::new(io::ErrorKind::InvalidInput, "injected fault (invalid input)"),
+                    _ => io::Error::other("injected fault"),
+                },
                 _ => io::Error::other("injected fault"),
             });
         }
